@@ -75,7 +75,9 @@ def build(ck):
             x = b if lk == 'own_inverse' else a
             cx, wx, _, _ = A.den_of(S.I, x)
             S.assume(A.lem_inverse_cancels(wx, cx))
+        snap = S.snapshot(a, b)
         out = S.call(B.PyFunc(lambda interp: interp.binop('MatMult', a, b), 'a @ b'), [])
+        S.oblige('frame', S.unchanged(snap), tag=f'{lk}@{rk}:operands-not-modified')
         match = ia == ob
         if out.raised('ValueError'):
             S.oblige('exc', z3.Not(match), tag=f'{lk}@{rk}:ValueError-only-if-structures-differ')
@@ -127,7 +129,9 @@ def build(ck):          # noqa: F811
         ca, wa, ia, oa = A.den_of(S.I, a)
         cb, wb, ib, ob = A.den_of(S.I, b)
         opn = 'Sub' if sub else 'Add'
+        snap = S.snapshot(a, b)
         out = S.call(B.PyFunc(lambda interp: interp.binop(opn, a, b), 'a +/- b'), [])
+        S.oblige('frame', S.unchanged(snap), tag=f'{lk}{"-" if sub else "+"}{rk}:operands-not-modified')
         match = z3.And(ia == ib, oa == ob)
         nm = f'{lk}{"-" if sub else "+"}{rk}'
         if out.raised('ValueError'):
@@ -175,6 +179,7 @@ def build(ck):          # noqa: F811
         ca, wa, ia, oa = A.den_of(S.I, a)
         k = S.real('k')
         nm = f'{form}:{kind}'
+        snap0 = S.snapshot(a)
         if form == 'k*a':
             out = S.call(B.PyFunc(lambda interp: interp.binop('Mult', k, a), nm), [])
             want = k * ca
@@ -204,6 +209,7 @@ def build(ck):          # noqa: F811
         if not out.normal:
             S.oblige('exc', False, tag=f'{nm}:undeclared-{out.value.name}', note=str(out.where))
             return
+        S.oblige('frame', S.unchanged(snap0), tag=f'{nm}:operand-not-modified')
         r = out.value
         if kind == 'addition' and form == '-a':
             # -(sum) negates every term
